@@ -6,6 +6,9 @@ directly (expression text after substitution; final field value + the constraint
 both tables to the model (Model/Pipeline.v) and to the property oracle (Corr/Check_C18.v).
 Stream `multipass` (and a share of the placeholders of the other expression streams): placeholders inside the expression that need
 more than one substitution pass - nested keys, configured values / defaults that contain placeholders (G.deep, G.dependent).
+Stream `vstruct`: struct-valued validation targets - the field's Go type is built by the driver (reflect.StructOf) from a generated
+shape with nested non-pointer structs, pointers to structs, slices / maps of structs tagged required / dive,required / ..., the
+section of each present, missing, all-zero or with a zero element (gen_vstruct_case).
 Instantiated obligation: class / Order() of the real built-in processors, read on every run -> Facts_C18.v ->
 `staged facts = true` and `staged_classes facts = true` re-proved by vm_compute.
 """
@@ -23,7 +26,9 @@ MANIFEST = {
             "bound value is negative. `staged` is re-proved on the facts read from the real processors each run; the model is "
             "compared with real App.Run starts (expr-lang and validator called directly as oracles)",
     "design_ref": "DESIGN.md 5 C18",
-    "note": "trusted: Coq kernel + vm_compute; hand-written pipeline model; expr-lang and validator as oracles (Section variables); "
+    "note": "trusted: Coq kernel + vm_compute; hand-written pipeline model; expr-lang and validator as oracles (Section variables; the "
+            "driver's reference validator is its own instance, built with WithRequiredStructEnabled: `required` on a struct value means "
+            "not the zero struct); "
             "mapstructure decoding modelled only for scalar field types in the harness comparison (not in theorems); Go driver, generators; "
             "the variant fx of the ${} callback (float64 spliced by strconv2.FormatAny, or in plain digits after repair D-C17g; theorems hold "
             "for both) is read off the running code by a probe case on every run",
@@ -503,6 +508,214 @@ def gen_validate_case(rng, cid):
             "ftype": ftype, "constraints": cons if hasv else "", "hasvalidate": hasv, "expr": None, "scalar": scalar}
 
 
+# ------------------------------------------------------------------------------------------------
+# struct-valued validation targets (stream `vstruct`).  The field's Go type is built by the driver from a shape the generator
+# writes (ftype "dyn"): structs whose fields are scalars (with the scalar constraints of the stream `validate`) and STRUCT-VALUED
+# targets - a nested non-pointer struct, a pointer to a struct, a slice / map of structs (or of pointers to structs) - tagged
+# `required`, `dive,required`, `required,dive,required`, ... or not at all, one or two levels deep.  The configuration gives
+# every target a section that is present, missing, all-zero (keys present, zero values) or - for slices and maps - has a zero
+# element.  `required` on a struct value means "not the zero struct" (the reference validator of the driver is configured so).
+
+def sh_struct(fields):
+    return {"k": "struct", "f": fields}
+
+
+def sh_field(name, shape, v=""):
+    return {"n": name, "y": name.lower(), "v": v, "t": shape}      # the configuration store keeps keys in lower case
+
+
+# scalar leaves: (kind, constraints that the zero value satisfies, other constraints, non-zero values, zero value)
+VS_LEAVES = {
+    "string": (["", "", "omitempty,min=2", "max=5", "ne=zz", "excludes=z"], ["required", "min=2", "required,min=2,max=5", "alphanum", "len=3"],
+               ["abc", "ab", "hello", "main", "a1", "q"], ""),
+    "int": (["", "", "gte=0", "lte=10", "ne=3", "omitempty,gte=2"], ["required", "gt=0", "gte=1,lte=10", "min=3", "eq=3"],
+            [1, 2, 3, 4, 10, 11, -1], 0),
+    "bool": (["", "", "eq=false"], ["required", "eq=true"], [True], False),
+}
+VS_SCALAR_NAMES = ["Name", "Size", "Url", "On", "Port", "Tag", "Level"]
+VS_TARGET_NAMES = ["Pool", "Cache", "Items", "ByName", "Auth", "Peers"]
+VS_FORMS = ["struct", "struct", "struct", "ptr", "slice", "slice", "map", "pslice"]
+VS_TAGS = {
+    "struct": ["required", "required", "required", "", "omitempty"],
+    "ptr": ["required", "required", "", "omitempty"],
+    "slice": ["dive,required", "required,dive,required", "required,dive,required", "min=1,dive,required", "dive", "required", ""],
+    "pslice": ["dive,required", "required,dive,required", "dive"],
+    "map": ["dive,required", "required,dive,required", "min=1,dive,required", "dive", ""],
+}
+
+
+def vs_wrap(form, inner):
+    if form == "struct":
+        return inner
+    if form == "ptr":
+        return {"k": "ptr", "e": inner}
+    if form == "slice":
+        return {"k": "slice", "e": inner}
+    if form == "pslice":
+        return {"k": "slice", "e": {"k": "ptr", "e": inner}}
+    return {"k": "map", "e": inner}
+
+
+def vs_unwrap(shape):
+    """(form, the struct shape inside) of a struct-valued target; (None, None) for a scalar"""
+    k = shape["k"]
+    if k == "struct":
+        return "struct", shape
+    if k == "ptr":
+        return "ptr", shape["e"]
+    if k == "slice":
+        return ("pslice", shape["e"]["e"]) if shape["e"]["k"] == "ptr" else ("slice", shape["e"])
+    if k == "map":
+        return "map", shape["e"]
+    return None, None
+
+
+def vs_struct_shape(rng, depth, strict):
+    """a struct: 1-2 scalar fields, and (depth > 0) 1-2 struct-valued target fields.  strict: scalar constraints come from the
+    whole list (the zero value may violate them); otherwise only constraints the zero value satisfies, so that a zero section is
+    rejected - if at all - by the `required` on the section itself"""
+    fields, names = [], list(VS_SCALAR_NAMES)
+    rng.shuffle(names)
+    for i in range(rng.randint(1, 2)):
+        kind = rng.choice(["string", "string", "int", "int", "bool"])
+        soft, hard, _, _ = VS_LEAVES[kind]
+        cons = rng.choice(soft + hard) if strict else rng.choice(soft)
+        fields.append(sh_field(names[i], {"k": kind}, cons))
+    if depth > 0:
+        tnames = list(VS_TARGET_NAMES)
+        rng.shuffle(tnames)
+        for i in range(rng.choice([1, 1, 2])):
+            form = rng.choice(VS_FORMS)
+            inner = vs_struct_shape(rng, depth - 1 if rng.random() < 0.6 else 0, strict and rng.random() < 0.3)
+            fields.append(sh_field(tnames[i], vs_wrap(form, inner), rng.choice(VS_TAGS[form])))
+        rng.shuffle(fields)
+    return sh_struct(fields)
+
+
+def vs_label(labels, form, tag, state, level):
+    t = "untagged" if tag == "" else tag.replace(",", "+")
+    for k in ("%s[%s]:%s" % (form, t, state), "level%d_targets" % level):
+        labels[k] = labels.get(k, 0) + 1
+
+
+def vs_struct_value(rng, shape, mode, labels, level):
+    """a configuration section for the struct shape.  mode: full (every scalar non-zero) | zero (every key present with the zero
+    value, struct-valued children missing or zero) | mixed"""
+    out, nonzero_seen = {}, False
+    for f in shape["f"]:
+        form, inner = vs_unwrap(f["t"])
+        if form is None:
+            _, _, nonzero, zero = VS_LEAVES[f["t"]["k"]]
+            if mode == "zero" or (mode == "mixed" and rng.random() < 0.3):
+                if mode == "zero" or rng.random() < 0.5:
+                    out[f["y"]] = zero
+            else:
+                out[f["y"]] = rng.choice(nonzero)
+                nonzero_seen = True
+            continue
+        v, state = vs_target_value(rng, form, inner, mode, labels, level)
+        vs_label(labels, form, f["v"], state, level)
+        if v is not None:
+            out[f["y"]] = v
+    if mode != "zero" and not nonzero_seen:            # a section that is `present` has at least one non-zero scalar
+        f = [f for f in shape["f"] if vs_unwrap(f["t"])[0] is None][0]
+        out[f["y"]] = rng.choice(VS_LEAVES[f["t"]["k"]][2])
+    return out
+
+
+def vs_target_value(rng, form, inner, mode, labels, level):
+    """the section of one struct-valued target: (value or None = key absent, state)"""
+    r = rng.random()
+    if form in ("struct", "ptr"):
+        if mode == "zero":
+            st = "missing" if r < 0.6 else "all_zero"
+        else:
+            st = "present" if r < 0.45 else "missing" if r < 0.75 else "all_zero"
+        if st == "missing":
+            return None, st
+        return vs_struct_value(rng, inner, "zero" if st == "all_zero" else rng.choice(["full", "full", "mixed"]), labels, level + 1), st
+    if mode == "zero" or r < 0.15:
+        return None, "missing"
+    if r < 0.25:
+        return ([] if form != "map" else {}), "empty"
+    n = rng.randint(1, 3)
+    zeros = [rng.random() < 0.3 for _ in range(n)] if rng.random() < 0.6 else [False] * n
+    elems = [vs_struct_value(rng, inner, "zero" if z else rng.choice(["full", "full", "mixed"]), labels, level + 1) for z in zeros]
+    st = "zero_element" if any(zeros) else "elements_nonzero"
+    if form == "map":
+        return {k: e for k, e in zip(["a", "b", "c"], elems)}, st
+    return elems, st
+
+
+VS_TOP_TAGS = {
+    "slice": ["required dive required", "required dive required", "dive required", "min=1 dive required", "dive", "required"],
+    "pslice": ["required dive required", "dive required", "dive"],
+    "map": ["required dive required", "dive required", "min=1 dive required", "dive"],
+}
+
+
+def gen_vstruct_case(rng, cid):
+    """one validated field whose type contains struct-valued targets, bound through prefix or through a ${} value"""
+    labels = {}
+    top = rng.choice(["struct", "struct", "struct", "ptr", "ptr", "slice", "slice", "map", "pslice"])
+    depth = rng.choice([1, 1, 2]) if top in ("struct", "ptr") else rng.choice([0, 0, 1])
+    inner = vs_struct_shape(rng, depth, strict=rng.random() < 0.3)
+    shape = vs_wrap(top, inner)
+    hasv = rng.random() < 0.92
+    cons = ""
+    if top in ("struct", "ptr"):
+        st = rng.choice(["present", "present", "present", "present", "all_zero"])
+        cfgv = vs_struct_value(rng, inner, "zero" if st == "all_zero" else rng.choice(["full", "full", "mixed"]), labels, 1)
+        labels["top_%s:%s" % (top, st)] = 1
+    else:
+        cons = rng.choice(VS_TOP_TAGS[top])
+        cfgv, st = vs_target_value(rng, top, inner, "mixed", labels, 1)
+        if cfgv is None:
+            cfgv, st = ([] if top != "map" else {}), "empty"
+        vs_label(labels, "top_" + top, cons.replace(" ", ",") if hasv else "", st, 0)
+        del labels["level0_targets"]
+    args = ""
+    if hasv:
+        args = ",validate" + ("=" + cons if cons else "")
+    unbound = rng.random() < 0.06
+    via = "prefix" if rng.random() < 0.55 else "value"
+    if unbound:                                        # the whole section is missing: the field keeps its zero value
+        tree = {"k": {"other": 1}}
+        tagkey, tagtext = ("prefix", "k.v" + args + ",required=false") if via == "prefix" else ("value", args + ",required=false")
+        labels = {"top_%s:unbound" % top: 1}
+    else:
+        tree = {"k": {"v": cfgv}}
+        tagkey, tagtext = ("prefix", "k.v" + args) if via == "prefix" else ("value", "${k.v}" + args)
+    labels["bound_via_" + via] = 1
+    labels["type_depth_%d" % vs_depth(shape)] = 1
+    return {"id": cid, "stream": "vstruct", "config": P.cfg_json(tree), "tree": tree, "tagkey": tagkey, "tagtext": hx(tagtext),
+            "ftype": "dyn", "shape": shape, "gotype": go_type(shape), "constraints": cons if hasv else "", "hasvalidate": hasv,
+            "expr": None, "vs": labels}
+
+
+def vs_depth(shape):
+    """nesting depth of struct types below the field (a struct of scalars = 0)"""
+    form, inner = vs_unwrap(shape)
+    if form is None:
+        return -1
+    return 1 + max([vs_depth(f["t"]) for f in inner["f"]] + [-1])
+
+
+def go_type(shape):
+    """the shape as Go source (evidence samples, replay readability)"""
+    k = shape["k"]
+    if k == "struct":
+        return "struct{ " + "; ".join("%s %s `yaml:\"%s\"%s`" % (f["n"], go_type(f["t"]), f["y"],
+                                      " validate:\"%s\"" % f["v"] if f["v"] else "") for f in shape["f"]) + " }"
+    if k == "ptr":
+        return "*" + go_type(shape["e"])
+    if k == "slice":
+        return "[]" + go_type(shape["e"])
+    if k == "map":
+        return "map[string]" + go_type(shape["e"])
+    return {"float": "float64"}.get(k, k)
+
+
 def retuple(v):
     """a tree read back from a replay file: JSON turned the float values ("dec", m, e) into lists"""
     if isinstance(v, list):
@@ -517,10 +730,12 @@ def retuple(v):
 def corpus():
     cs = []
 
-    def add(tree, tagkey, text, ftype, cons="", hasv=False, expr=None, stream="corpus", mp=None):
+    def add(tree, tagkey, text, ftype, cons="", hasv=False, expr=None, stream="corpus", mp=None, shape=None, vs=None):
         cs.append({"stream": stream, "config": P.cfg_json(tree), "tree": tree, "tagkey": tagkey, "tagtext": hx(text), "ftype": ftype,
                    "constraints": cons, "hasvalidate": hasv, "expr": expr,
                    "mp": {"n": mp[0], "feats": {f: 1 for f in mp[1:]}, "dependent": True} if mp else None})
+        if shape:
+            cs[-1].update({"shape": shape, "gotype": go_type(shape), "vs": {k: 1 for k in vs or []}})
 
     # fixtures of /repo/unittest/configure (expression_tag_test.go, validate_test.go)
     add({"a": 2}, "value", "#{${a}+${b:1}}", "int", expr="2+1")
@@ -557,6 +772,27 @@ def corpus():
     add(lim, "value", "#{${nope:${base}} / 4}", "float", expr="10 / 4", mp=(1, "default_with_placeholder"))
     add(lim, "value", "#{${limits.${nope:${tier}}} == 5 ? 'g' : 's'}", "string", expr="5 == 5 ? 'g' : 's'",
         mp=(1, "nested_key", "default_with_placeholder"))
+    # `required` on struct values (fixed witnesses of the class gen_vstruct_case draws from): a validated configuration struct with
+    # a nested non-pointer section marked required - present, missing, all-zero; the same behind a pointer; a slice / map of
+    # structs under `required dive required` without and with a zero element
+    pool = sh_struct([sh_field("Size", {"k": "int"}), sh_field("Name", {"k": "string"})])
+    db = sh_struct([sh_field("Url", {"k": "string"}, "required"), sh_field("Pool", pool, "required")])
+    dbp = sh_struct([sh_field("Url", {"k": "string"}, "required"), sh_field("Pool", {"k": "ptr", "e": pool}, "required")])
+    full = {"url": "postgres://localhost/app", "pool": {"size": 4, "name": "main"}}
+    nopool = {"url": "postgres://localhost/app"}
+    zpool = {"url": "postgres://localhost/app", "pool": {"size": 0, "name": ""}}
+    for shp, form in ((db, "struct"), (dbp, "ptr")):
+        for sect, state in ((full, "present"), (nopool, "missing"), (zpool, "all_zero")):
+            add({"db": sect}, "value", "${db},validate", "dyn", "", True, shape={"k": "ptr", "e": shp},
+                vs=["%s[required]:%s" % (form, state), "bound_via_value"])
+            add({"db": sect}, "prefix", "db,validate", "dyn", "", True, shape=shp, vs=["%s[required]:%s" % (form, state), "bound_via_prefix"])
+    two = [{"size": 1, "name": "a"}, {"size": 2, "name": "b"}]
+    zel = [{"size": 1, "name": "a"}, {"size": 0, "name": ""}]
+    for elems, state in ((two, "elements_nonzero"), (zel, "zero_element")):
+        add({"pools": elems}, "value", "${pools},validate=required dive required", "dyn", "required dive required", True,
+            shape={"k": "slice", "e": pool}, vs=["top_slice[required+dive+required]:" + state, "bound_via_value"])
+        add({"pools": dict(zip("ab", elems))}, "prefix", "pools,validate=required dive required", "dyn", "required dive required", True,
+            shape={"k": "map", "e": pool}, vs=["top_map[required+dive+required]:" + state, "bound_via_prefix"])
     return cs + P.corpus_files("C18")
 
 
@@ -595,7 +831,7 @@ SPLICE_VARIANTS = {"1e+06": False, "1000000": True}
 
 
 def evaluate(ctx, binp, cases, tag):
-    send = [{k: v for k, v in c.items() if k in ("id", "config", "tagkey", "tagtext", "ftype", "constraints", "hasvalidate")} for c in cases]
+    send = [{k: v for k, v in c.items() if k in ("id", "config", "tagkey", "tagtext", "ftype", "constraints", "hasvalidate", "shape")} for c in cases]
     # facts probe: which variant of the ${} callback does the tree have?  value:"${k}" with k: 1000000.0, TagVal after the ${} stage:
     # "1e+06" = strconv2.FormatAny (unrepaired), "1000000" = repair D-C17g (Model/Strconv.v format_cfg, the model's parameter fx)
     probe_id = max([c["id"] for c in cases] + [0]) + 1
@@ -703,7 +939,7 @@ def run(ctx):
         if rc:
             cases = [dict(rc, id=1, tree=retuple(rc.get("tree")))]
     else:
-        n_expr, n_mp, n_mixed, n_val = (900, 600, 200, 800) if ctx.quick() else (8000, 5000, 2000, 6000)
+        n_expr, n_mp, n_mixed, n_val, n_vs = (900, 600, 200, 800, 700) if ctx.quick() else (8000, 5000, 2000, 6000, 6000)
         cid = len(cases) + 1
         for _ in range(n_expr):
             cases.append(gen_expr_case(rng, cid)); cid += 1
@@ -713,6 +949,8 @@ def run(ctx):
             cases.append(gen_mixed_case(rng, cid)); cid += 1
         for _ in range(n_val):
             cases.append(gen_validate_case(rng, cid)); cid += 1
+        for _ in range(n_vs):
+            cases.append(gen_vstruct_case(rng, cid)); cid += 1
     by_id, M, V, cnt, res = evaluate(ctx, binp, cases, "main")
     facts_ok = facts_obligation(ctx, res)
     ctx.oblige("facts: the tree's ${} callback is one of the two modelled variants (a float64 spliced as strconv2.FormatAny writes it = "
@@ -746,6 +984,8 @@ def run(ctx):
                 more.append(gen_validate_case(r2, i))
             for i in range(801, 1201):
                 more.append(gen_expr_case(r2, i, multipass=True))
+            for i in range(1201, 1601):
+                more.append(gen_vstruct_case(r2, i))
             b2, M2, V2, _, _ = evaluate(ctx, binp, more, "widen%d" % extra)
             for i in V2:
                 if not (b2[i].get("kf_class") and i not in M2):
@@ -776,14 +1016,52 @@ def run(ctx):
     ctx.log("multi-pass placeholder class: %d cases (%d distinct, %d placeholders, %d with several, %d result-dependent) %s" % (
         mp["cases"], mp["distinct_cases"], mp["placeholders"], mp["cases_with_several"], mp["cases_result_depends_on_inner_value"],
         json.dumps(mp["cases_by_feature"], sort_keys=True)))
+    # the class `struct-valued validation targets`: cases per (form, tag, state of the section) and how many of them have a
+    # verdict that `required` on a struct value decides (the reference verdict differs from that of an instance without
+    # WithRequiredStructEnabled - a statistic, never compared)
+    vs = {"cases": 0, "cases_with_validate_bound": 0, "startup_failed_in_validation": 0, "startup_ok": 0,
+          "verdict_decided_by_required_on_struct_value": 0, "targets_by_form_tag_state": {}, "cases_by_top_type": {},
+          "cases_by_binding": {}, "cases_by_type_depth": {}, "targets_by_level": {}}
+    for c in cases:
+        lab = c.get("vs")
+        if lab is None:
+            continue
+        o = by_id.get(c["id"], {}).get("observed", {})
+        vs["cases"] += 1
+        if c["hasvalidate"] and o.get("bound"):
+            vs["cases_with_validate_bound"] += 1
+            vs["startup_failed_in_validation"] += 1 if o.get("outcome") == "err" else 0
+            vs["startup_ok"] += 1 if o.get("outcome") == "ok" else 0
+            if o.get("verdict") is False and o.get("verdict_lax") is True:
+                vs["verdict_decided_by_required_on_struct_value"] += 1
+        top = c["shape"]["k"] if c["shape"]["k"] != "slice" else ("slice_of_ptr" if c["shape"]["e"]["k"] == "ptr" else "slice")
+        vs["cases_by_top_type"][top] = vs["cases_by_top_type"].get(top, 0) + 1
+        for k, n in lab.items():
+            key = ("cases_by_binding" if k.startswith("bound_via_") else "cases_by_type_depth" if k.startswith("type_depth_") else
+                   "targets_by_level" if k.startswith("level") else "targets_by_form_tag_state")
+            vs[key][k] = vs[key].get(k, 0) + n
+    vs["distinct_cases"] = len({vlib.stable_hash([c["config"], c["tagkey"], c["tagtext"], c["shape"]]) for c in cases if c.get("vs") is not None})
+    by_state = {}
+    for k, n in vs["targets_by_form_tag_state"].items():
+        form, state = k.split("[")[0].split(":")[0], k.rsplit(":", 1)[1]
+        req = "required" in k and "omitempty" not in k
+        kk = "%s%s:%s" % (form, "+required" if req else "", state)
+        by_state[kk] = by_state.get(kk, 0) + n
+    vs["targets_by_form_state"] = by_state
+    ctx.log("struct-valued validation targets: %d cases (%d distinct, %d bound with validate: %d failed in validation, %d started; "
+            "verdict decided by `required` on a struct value in %d) %s" % (
+                vs["cases"], vs["distinct_cases"], vs["cases_with_validate_bound"], vs["startup_failed_in_validation"], vs["startup_ok"],
+                vs["verdict_decided_by_required_on_struct_value"], json.dumps(by_state, sort_keys=True)))
     for d in by_id.values():
         oc = d["observed"].get("outcome")
         outcomes[oc] = outcomes.get(oc, 0) + 1
     distinct = len({vlib.stable_hash([c["config"], c["tagkey"], c["tagtext"], c["ftype"]]) for c in cases
-                    if (c.get("expr") is not None and "${" in unhx(c["tagtext"]).decode("latin1")) or c.get("stream") == "validate"})
+                    if (c.get("expr") is not None and "${" in unhx(c["tagtext"]).decode("latin1"))
+                    or c.get("stream") in ("validate", "vstruct")})
     samples = [by_id[i] for i in sorted(by_id) if by_id[i]["case"].get("stream") == "expr"][:2]
     samples += [by_id[i] for i in sorted(by_id) if by_id[i]["case"].get("stream") == "multipass"][:3]
     samples += [by_id[i] for i in sorted(by_id) if by_id[i]["case"].get("stream") == "validate"][:2]
+    samples += [by_id[i] for i in sorted(by_id) if by_id[i]["case"].get("stream") == "vstruct"][:3]
     cov = {
         "evaluations": cnt["evals"],
         "distinct_nontrivial": min(cnt["nt"], distinct),
@@ -794,11 +1072,16 @@ def run(ctx):
                 "${limits.${tier}}, configured values that contain placeholders (one, two and more hops, with text around), defaults "
                 "that contain placeholders, several per expression, and expressions that are injective in the inner value; (b) mixed texts with several expressions; (c) value x constraint pairs for "
                 "validate on scalars, pointers, slices, maps and (nested) structs, bound from literals and through prefix; boundaries; "
-                "unbound fields. non-trivial = (a) with at least one placeholder inside the expression, or a case with a validate "
+                "unbound fields; (d) struct-valued validation targets (stream vstruct, field types built by the driver from generated "
+                "shapes): nested non-pointer structs, pointers to structs, slices / maps of structs and of pointers to structs, tagged "
+                "required / dive,required / required,dive,required / min=1,dive,required / omitempty / not at all, one and two levels "
+                "deep next to constrained scalars, as the field itself or inside a validated struct, with the section present, missing, "
+                "all-zero, empty or holding a zero element, bound through prefix and through a ${} value. non-trivial = (a) with at least one placeholder inside the expression, or a case with a validate "
                 "argument whose binding stage was reached; distinct = distinct (configuration, tag, field type)",
         "samples": samples,
         "traces_validated_against_impl": len(cases),
-        "input_distribution": {"streams": streams, "outcomes": outcomes, "multipass_placeholders": mp},
+        "input_distribution": {"streams": streams, "outcomes": outcomes, "multipass_placeholders": mp,
+                               "struct_valued_validation_targets": vs},
         "nontrivial_cases": cnt["nt"],
         "validate_failures_observed": cnt["vf"],
         "cases_outside_modelled_fragment": cnt["outside"],
@@ -807,6 +1090,8 @@ def run(ctx):
     }
     return vlib.decide(ctx, static_ok and facts_ok, by_id, M, V, cov, classify_known=classify_known, widen=widen,
                        assumptions=["expr-lang (Compile+Run) and go-playground/validator are oracles: called directly by the driver on the "
-                                    "substituted expression text / the final field value",
+                                    "substituted expression text / the final field value; the reference validator is built by the driver "
+                                    "with WithRequiredStructEnabled (`required` on a struct value = not the zero struct), independently of "
+                                    "the instance inside container/processors",
                                     "user processors do not modify TagVal or the field of a configuration property",
                                     "mapstructure decoding is modelled for scalar field types only (harness comparison, not theorems)"])
